@@ -1,6 +1,7 @@
 mod codec;
 mod model;
 mod replay;
+mod views;
 
 use codec::*;
 use model::*;
